@@ -14,6 +14,7 @@ LAYERS = {
     "cbm": ("harness.cbm_adapter", "run_script", "Trace_FimCBM", "Trace_FimCBM.cfg", None),
     "codec": ("harness.value_adapter", "run_codec_script", "Trace_FimCodec", "Trace_FimCodec.cfg", None),
     "domain": ("harness.domain_adapter", "run_script", "Trace_FimDomains", "Trace_FimDomains.cfg", None),
+    "cypher": ("harness.cypher_adapter", "run_script", "Trace_FimCypher", "Trace_FimCypher.cfg", None),
     "conv": ("harness.conv_adapter", "run_script", "Trace_FimSliverConv", "Trace_FimSliverConv.cfg", None),
     "delegation": ("harness.value_adapter", "run_delegation_script", "Trace_FimDelegation", "Trace_FimDelegation.cfg", "variant"),
     "sliverdiff": ("harness.diff_adapter", "run_script", "Trace_FimSliverDiff", "Trace_FimSliverDiff.cfg", None),
